@@ -41,6 +41,17 @@ PROPS = {
              'Kani destructor precondition: at every entry to an element destructor inside an element-destroying operation the element lies outside the committed window '
              'of the buffer and that window is a valid all-live sequence - the state that remains if that destructor unwinds. Bounded in N; unwinding itself is not executed.',
              not_covered=['From<[T;M]> (second owner is the by-value array in the frame)']),
+    'C06': P('other', False,
+             'Kani user-code precondition: at every entry to T::clone, the fill_with closure, the extend/from_iter iterator and element eq inside an operation, the buffer is a '
+             'valid all-live sequence (the state that remains if that call unwinds) and the ledger shows no element both destroyed and reachable. Bounded in N; unwinding is not executed.',
+             not_covered=['the "nothing is leaked" half: whether clones parked outside the window are owned by a guard is a fact about unwinding which neither verifier executes']),
+    'C07': P('proof', True,
+             'Verus proves get/nth/front/back/as_slices/make_contiguous against the view for all N and all indices including usize::MAX; Kani proves per capacity that every accessor '
+             '(incl. Index/IndexMut, iter, iter_mut, as_mut_slices, to_vec) returns the address of exactly the slot holding that position, pairwise distinct, and that a write through it changes only that position.',
+             not_covered=['Debug output under every formatter flag (assumed contract of core::fmt::DebugList; the crate-side obligation that (&buf).into_iter() yields the view is checked)']),
+    'C12': P('other', False,
+             'Kani contracts per (N, M): new/default/boxed empty; From<[T;M]>, from_iter, extend keep the last N in order and destroy the rest exactly once (ledger); clone/clone_from/to_vec give '
+             'fresh clones (parent ids) in order, source untouched, nothing shared; into_iter yields the original elements in order. Bounded in N and M.'),
     'C11': P('proof', True,
              'Verus proves absence of panics (assert!/debug_assert!/expect), arithmetic overflow, out-of-bounds indexing, division by zero and non-termination for every verified '
              'function under wf alone (swap: under the documented index condition), for all N including 0 and all arguments including usize::MAX. '
